@@ -16,7 +16,7 @@ ID = "C05"
 TECHNIQUE = ("Hypothesis-generated (accessor, unit pair, value) cells against typed-in SI conversion factors; generated "
              "programs of nested units contexts with exceptions against a stack model; generated (library call, "
              "active unit) pairs with a before/after comparison of the Manager's current units")
-LEVEL = ("(a) for a hand-enumerated registry of units-managed setters/getters a value supplied under one unit and read "
+LEVEL = ("(Registry of 26 accessors incl. widths, diabatic/adiabatic couplings, coupling cut-off, exciton state energies, calculator RWA, correlation-function matrix, hierarchy, diagonalize; context objects created in advance and entered later.) (a) for a hand-enumerated registry of units-managed setters/getters a value supplied under one unit and read "
          "under another must equal the exact conversion (1e-7 relative) and the stored internal value must not depend "
          "on the units of the supplying context; (b) programs of nested energy/frequency/length contexts, with private "
          "exceptions unwound through one or more levels, must restore the current units of every type and the context "
